@@ -1,4 +1,5 @@
 import FinProtoc.Proofs.FmtLemmas
+import FinProtoc.Proofs.ParserToks
 /-!
 # C09 — formatting changes layout only, never meaning or content
 
@@ -9,6 +10,10 @@ Proved about the formatter MODEL (`Fmt`, tied to the real formatter on every run
   result is "input unchanged + error" (the model's `.syntaxError`), for every text.
 * `accepted_is_whole`: a text is only formatted when the lexer dropped nothing and the start rule consumed
   every token (both were silent losses on the pinned tree, repaired by a `fix:` commit).
+
+* `parseToks_toks`, `parsed_tree_is_the_text`: the parser model neither drops, invents nor reorders tokens — the
+  token view of the tree of an accepted text is exactly the lexer's list of visible tokens (per-rule lemmas in
+  `Proofs/ParserToks.lean`).  So every declaration, attribute and documentation string reaches the printer, in order.
 
 Content retention (`sig (lex (format x)) = sig (lex x)`), re-parsability and meaning preservation are
 decided per text on the REAL output by the check, using the Lean lexer/parser/visitor as judges; their
@@ -44,5 +49,48 @@ theorem keylist_short (L : Layout) (vs : List String) (h : vs.length ≤ L.wrap)
     formatStringList L vs = "[" ++ ", ".intercalate vs ++ "]" := by
   simp [formatStringList, h]
 
+/-! ## Parser token fidelity
+
+The tree the printer walks is the author's text, token for token: the parser model keeps every token it
+consumes in the node it builds, in source order, and consumes nothing it does not keep
+(`Proofs/ParserToks.lean` has the same statement for each of the 25 rules). -/
+
+/-- PARSER TOKEN FIDELITY.  Whenever the parser model accepts a token list, reading the tokens off the
+tree from left to right (`Cst.toks`) and appending the tokens the start rule left unconsumed gives back the
+input token list exactly: no token is dropped, invented, duplicated or moved. -/
+theorem parseToks_toks (ts : List Tok) (cst : Cst) (rest : List Tok) (h : parseToks ts = some (cst, rest)) :
+    cst.toks ++ rest = ts :=
+  parseToks_toks' h
+
+/-- For an ACCEPTED text (what the formatter formats) the tokens of the tree are exactly the visible tokens
+of the text, in order: every declaration, attribute, documentation string, separator and brace the author
+wrote is in the tree the printer walks, at its place. -/
+theorem parsed_tree_is_the_text (s : String) (cst : Cst) (h : parseFull s = some cst) :
+    cst.toks = (lex s).toks := by
+  have h' := parseToks_toks _ _ _ (accepted_is_whole s cst h).2
+  simpa using h'
+
+/-- whatever text is formatted (`.ok`), the tree that was printed carries every visible token of the text -/
+theorem formatted_tree_is_the_text (L : Layout) (s t : String) (h : formatWith L s = .ok t) :
+    ∃ cst, parseFull s = some cst ∧ cst.toks = (lex s).toks := by
+  obtain ⟨cst, hc⟩ := format_ok_is_parsed L s t h
+  exact ⟨cst, hc, parsed_tree_is_the_text s cst hc⟩
+
+/-- a text with comments in several positions, documentation strings, attributes, a nested object, a
+match with a key list, options and MetaData (used for the non-vacuity checks here and in `C10`) -/
+def exFmtText : String :=
+  "// a\noptions { // b\n X = 1; // c\n}\nMetaData M {\n u8 T `d`,\n}\n// e\nroot packet P { // f\n // g\n T, // h\n @tag(7)\n" ++
+  " u8 L @lengthOf(B) `n`, // i\n repeat H {\n  u8 V, // j\n }, // k\n match T as B {\n  // l\n  [1, 2] : Q, // m\n },\n} // n\n// o\n"
+
+/-- non-vacuity: the text is accepted, its tree has 55 tokens, and they are the lexer's visible tokens
+(the instance of `parsed_tree_is_the_text`, evaluated by the kernel as well) -/
+theorem exFmtText_accepted :
+    ((parseFull exFmtText).map fun c => c.toks.length == 55 && c.toks == (lex exFmtText).toks) = some true := by
+  decide +kernel
+
+example : ∃ cst, parseFull exFmtText = some cst ∧ cst.toks = (lex exFmtText).toks := by
+  cases h : parseFull exFmtText with
+  | none => have := exFmtText_accepted; rw [h] at this; cases this
+  | some cst => exact ⟨cst, rfl, parsed_tree_is_the_text _ _ h⟩
 
 end FinProtoc.Props
